@@ -245,6 +245,14 @@ class Run(RunBase):
         if k == "sc_remove_intruder":
             return len(op["ids"]) > 0 and len(set(op["ids"])) == len(op["ids"]) and \
                 all(i in a[part[op.get("kind", "lanelet")]] for i in op["ids"])
+        if k == "cleanup":
+            return True
+        if k == "edit":
+            if op["a"] not in a["L"]:
+                return False
+            if op["how"] in ("add_successor", "add_predecessor", "remove_successor", "remove_predecessor"):
+                return op["b"] in a["L"]
+            return op["b"] in a["S" if "sign" in op["how"] else "T"]
         if k == "net_remove_absent":
             return op["id"] not in a[part[op["kind"]]]
         if k in ("net_remove", "sc_remove"):
@@ -438,6 +446,43 @@ class Run(RunBase):
         self._check(op)
         return "ok"
 
+    def _op_edit(self, op):
+        """The map is edited through the lanelets' public methods (a relation or a reference between elements that ARE
+        in the network is added or taken away): the network stays well formed, later removals have to clean these
+        relations like any other."""
+        a, la = self.m.a, self._find("lanelet", op["a"])
+        how = op["how"]
+        self.last = f"Lanelet.{how}"
+        try:
+            if how in ("add_successor", "add_predecessor", "remove_successor", "remove_predecessor"):
+                getattr(la, how)(op["b"])
+                key = "succ" if "successor" in how else "pred"
+                (a["L"][op["a"]][key].add if how.startswith("add") else a["L"][op["a"]][key].discard)(op["b"])
+            elif how == "add_traffic_sign_to_lanelet":
+                la.add_traffic_sign_to_lanelet(op["b"])
+                a["L"][op["a"]]["signs"].add(op["b"])
+            else:
+                la.add_traffic_light_to_lanelet(op["b"])
+                a["L"][op["a"]]["lights"].add(op["b"])
+        except Exception as e:  # noqa
+            raise Violation(f"C10/edit-raised/{self.last}", f"{self.last}({op['b']}) raised {type(e).__name__}: {e}")
+        self.probe("map-edited:" + how)
+        self._check(op)
+        return "ok"
+
+    def _op_cleanup(self, op):
+        """The public clean-up methods on a network that has nothing to clean: nothing changes."""
+        self.last = "LaneletNetwork.cleanup_*_references"
+        try:
+            self.net.cleanup_lanelet_references()
+            self.net.cleanup_traffic_sign_references()
+            self.net.cleanup_traffic_light_references()
+        except Exception as e:  # noqa
+            raise Violation(f"C10/cleanup-raised/{self.last}", f"{self.last} raised {type(e).__name__}: {e}")
+        self.probe("cleanup-on-a-consistent-network")
+        self._check(op)
+        return "ok"
+
     def _op_sc_remove_intruder(self, op):
         """Scenario.remove_lanelet with a list that contains a lanelet which is NOT in the network: the call may fail
         half-way.  Whatever it removed, no remaining element may refer to a removed id and nothing else may change."""
@@ -619,6 +664,20 @@ def _remover(rng, run, cfg):
             yield op
 
 
+def _editor(rng, run, cfg):
+    while True:
+        a = run.m.a
+        L = sorted(a["L"])
+        if not L or rng.chance(0.3):
+            yield {"op": "cleanup"}
+            continue
+        how = rng.pick(["add_successor", "add_predecessor", "remove_successor", "remove_predecessor",
+                        "add_traffic_sign_to_lanelet", "add_traffic_light_to_lanelet"])
+        pool = L if "cessor" in how else sorted(a["S" if "sign" in how else "T"])
+        op = {"op": "edit", "how": how, "a": rng.pick(L), "b": rng.pick(pool)} if pool else None
+        yield op if op and run.enabled(op) else None
+
+
 def _cutter(rng, run, cfg):
     while True:
         a = run.m.a
@@ -665,7 +724,9 @@ class C10(Property):
                        "exclusive-sign-or-light-removed-with-lanelet", "shared-sign-or-light-kept",
                        "cut-out-by-shape-partial", "cut-out-by-type-partial", "restart-pickle", "restart-deepcopy",
                        "cut-out-keeps-source-alive", "continued-on-the-other-network", "removal-of-absent-id",
-                       "cut-out-shape-exactly-tangent-to-lanelet", "list-removal-interrupted"]
+                       "cut-out-shape-exactly-tangent-to-lanelet", "list-removal-interrupted",
+                       "map-edited:add_successor", "map-edited:add_traffic_sign_to_lanelet", "cleanup-on-a-consistent-network",
+                       "removed-by-an-equal-copy"]
     assumptions = [
         "networks are well formed: every reference names an existing element and a stop line refers only to signs and "
         "lights its lanelet also references (checked on every generated universe)",
@@ -681,7 +742,7 @@ class C10(Property):
         return {"steps": rng.randint(3, 15), "kinds": sorted(rng.subset(["lanelet", "sign", "light", "intersection"],
                                                                         0.7, at_least=1)),
                 "p_net_level": rng.pick([0.0, 0.3, 0.6, 1.0]), "cutter": rng.chance(0.6), "restarts": rng.chance(0.4),
-                "remover": rng.chance(0.85)}
+                "remover": rng.chance(0.85), "editor": rng.chance(0.35)}
 
     def gen_universe(self, rng, cfg):
         ids = gen.IdAlloc(rng, 1, 120, zero=0.15)
@@ -702,6 +763,8 @@ class C10(Property):
             out.append(Client("cutter", 1.0, _cutter(rng.sub("cut"), run, cfg)))
         if cfg["restarts"]:
             out.append(Client("restarter", 0.6, _restarter(rng.sub("r"), run, cfg)))
+        if cfg.get("editor"):
+            out.append(Client("editor", 0.8, _editor(rng.sub("e"), run, cfg)))
         return out
 
     def prune_universe(self, universe, trace):
